@@ -40,6 +40,17 @@ def run(tier, pid="C06"):
         raise core.ToolError("nothing generated")
     v.add(rep["mismatches"])
     os.remove(r["out_path"])
+    # the smart-preset tier table, exhaustively: 22 presets x pre-release x post {unset, 0, 2} x distance x dirty
+    from .c05 import cfg as zerv_cfg
+    rt = core.tlc("MC_Zerv", zerv_cfg("tier", "{0}"), pid.lower() + "-tier", workers=12, timeout=7200)
+    os.environ["ZV_KEY_PREFIX"] = "C06:smart-preset-tier"
+    try:
+        rept = core.zv(["replay", "zerv", rt["out_path"], core.seed()])
+    finally:
+        os.environ.pop("ZV_KEY_PREFIX", None)
+    core.log("  tier table: %d preset x state cases (schema, variables), %d mismatches" % (rept["evaluations"], rept["mismatch_count"]))
+    v.add(rept["mismatches"])
+    os.remove(rt["out_path"])
     n = 20000 if tier == "quick" else 200000
     chunk = 20000
     tev = tbad = 0
